@@ -9,10 +9,27 @@ import tempfile
 VERIF = os.path.dirname(os.path.dirname(os.path.abspath(__file__)))
 
 
+def _pname(patch):
+    return os.path.basename(patch) if not patch.endswith("patch.diff") else "seeded/" + os.path.basename(os.path.dirname(patch))
+
+
 def run(ctx, pid):
     """For every selftest/<pid>_*.patch: copy the workspace to a scratch dir, apply, re-extract,
     re-run the rules of <pid> and require that the expected instance is reported."""
     patches = sorted(glob.glob(os.path.join(VERIF, "selftest", pid + "_*.patch")))
+    # confirmed seeded changes from the independent sub-agents that this property's rules are expected to report:
+    # seeded/<dir>/meta.json carries {"expect": {"<pid>": "<substring of the violation key>"}}
+    seeded_expect = {}
+    for mp in sorted(glob.glob(os.path.join(VERIF, "seeded", "*", "meta.json"))):
+        try:
+            m = json.load(open(mp))
+        except ValueError:
+            continue
+        want = (m.get("expect") or {}).get(pid)
+        pd = os.path.join(os.path.dirname(mp), "patch.diff")
+        if want and os.path.exists(pd) and (m.get("confirmed") or {}).get("valid_seeded_change", True):
+            patches.append(pd)
+            seeded_expect[pd] = want
     if not patches:
         ctx.selftests.append({"status": "no seeded variants registered for this property"})
         return
@@ -23,6 +40,8 @@ def run(ctx, pid):
     for patch in patches:
         meta_p = patch[:-6] + ".json"
         meta = json.load(open(meta_p)) if os.path.exists(meta_p) else {}
+        if patch in seeded_expect:
+            meta = {"expect_key_contains": seeded_expect[patch]}
         scratch = tempfile.mkdtemp(prefix="agdb_selftest_")
         try:
             for m in F.MEMBERS + ["Cargo.toml", "Cargo.lock", "agdb_benchmark", "agdb_ci", "examples"]:
@@ -35,13 +54,13 @@ def run(ctx, pid):
             r = subprocess.run(["patch", "-p1", "--no-backup-if-mismatch", "-i", patch], cwd=scratch,
                                stdout=subprocess.PIPE, stderr=subprocess.STDOUT, text=True)
             if r.returncode != 0:
-                ctx.selftests.append({"patch": os.path.basename(patch), "status": "selftest skipped: patch does not "
+                ctx.selftests.append({"patch": _pname(patch), "status": "selftest skipped: patch does not "
                                       "apply to the current tree"})
                 continue
             try:
                 fdir, _ = F.ensure_facts(scratch, verbose=False)
             except F.MachineryError as e:
-                ctx.selftests.append({"patch": os.path.basename(patch), "status": "selftest skipped: variant does "
+                ctx.selftests.append({"patch": _pname(patch), "status": "selftest skipped: variant does "
                                       "not compile: " + str(e)[-200:]})
                 continue
             c2 = Ctx(pid, "quick", F.Facts(fdir))
@@ -50,12 +69,12 @@ def run(ctx, pid):
             bad = [o for o in c2.obligations if not o["ok"]]
             want = meta.get("expect_key_contains", "")
             hit = [o for o in bad if want in o["key"] or want in o["instance"]]
-            ctx.selftests.append({"patch": os.path.basename(patch), "expect": want,
+            ctx.selftests.append({"patch": _pname(patch), "expect": want,
                                   "status": "fired" if hit else "MISSED", "reported": [o["key"] for o in bad][:5]})
-            ctx.ob("E4", "selftest:" + os.path.basename(patch), bool(hit),
+            ctx.ob("E4", "selftest:" + _pname(patch), bool(hit),
                    "seeded variant detected: %s" % hit[0]["key"] if hit else
                    "seeded variant `%s` was NOT detected by the rules of %s (checker regression)" % (
-                       os.path.basename(patch), pid))
+                       _pname(patch), pid))
             subprocess.run(["rm", "-rf", fdir])
         finally:
             shutil.rmtree(scratch, ignore_errors=True)
